@@ -44,9 +44,9 @@ func (*prop) Assumptions() []string {
 }
 func (*prop) MinDistinct(tier string) int64 {
 	if tier == "thorough" {
-		return 200_000
+		return 100000
 	}
-	return 5_000
+	return 2000
 }
 
 const target = "example.com/mod/target"
